@@ -343,6 +343,8 @@ def strand_semantics(repo: Repo, rep: Report) -> None:
 
 
 def run(repo: Repo, rep: Report) -> None:
+    from .encodings import engine_selfcheck
+    engine_selfcheck(rep)
     rep.rule("ENC-S", "the whole constraint set (degree rules, pass-through node arrays, split graph of 3 nodes per point + 1 per segment, connectivity of its active nodes) equals the reference schema")
     rep.saw(GRAPH, "active_edges_connected_crossable")
     degree_table(repo, rep)
